@@ -72,6 +72,16 @@ def tus(tier, seed):
                 body += '  scaledn<%d, %s, %d>(rng);\n' % (d, CT[n], k)
         body += '}\n'
         res.append(dict(name='C05_scaled_%d' % (i // 3), src=body, compiler='g++'))
+    # results that need multi-word (wide_integer) storage, digit counts at exact multiples of the limb width included
+    xhdr = __file__.replace('C05.py', 'C05x.h')
+    xs = [(80, 'i32', 80, 'i32'), (96, 'i32', 96, 'i32'), (64, 'i32', 64, 'u32'), (159, 'i32', 159, 'i32'), (160, 'u32', 160, 'u32'), (127, 'i32', 1, 'i32'),
+          (100, 'u32', 100, 'i32'), (128, 'i64', 64, 'i64')]
+    for i in range(0, len(xs), 2):
+        body = '#include "%s"\nint main(){ install(); Rng rng(seed_from_env()+9000+%d);\n' % (xhdr, i)
+        for (dl, nl, dr, nr) in xs[i:i + 2]:
+            body += '  xbin<%d, %s, %d, %s>(rng);\n' % (dl, CT[nl], dr, CT[nr])
+        body += '}\n'
+        res.append(dict(name='C05_wide_%d' % (i // 2), src=body, compiler='g++'))
     # elastic_integer combined directly with built-in integers (from_value of a built-in operand)
     mixed = [(8, 'u32', 'i32'), (8, 'u8', 'i8'), (20, 'i32', 'u32'), (40, 'u64', 'i64'), (10, 'i16', 'u8'), (31, 'i32', 'i64'), (5, 'u16', 'i32')]
     rnd2 = random.Random(seed * 31 + 7)
